@@ -306,6 +306,7 @@ def run_scenario(item):
     mtimes = {}
     pickles = {}
     out = []
+    t_start = time.time()
     env = dict(os.environ)
     env['PYTHONPATH'] = os.pathsep.join([common.REPO, os.path.join(common.VERIF, 'harness'), common.VERIF])
 
@@ -353,7 +354,7 @@ def run_scenario(item):
         out.append({'answers': obs['answers'], 'truth': truth['answers'], 'trace': obs['trace'],
                     'model_ops': model_ops, 'files': files, 'mtimes': dict(mtimes), 'dirs': dirs})
     shutil.rmtree(root, ignore_errors=True)
-    return {'sid': item['sid'], 'steps': out}
+    return {'sid': item['sid'], 'steps': out, 'secs': round(time.time() - t_start, 1)}
 
 
 # ======================================================================= generation (parent)
@@ -607,7 +608,8 @@ def _run(ctx):
     scs += layout_scenarios(ctx.seed)
     t0 = time.time()
     results = [r[0] for r in pmap('run_scenario', [[s] for s in scs], jobs=14, module='props.c09')]
-    common.log('[c09] scenarios: %.1fs' % (time.time() - t0))
+    common.log('[c09] scenarios: %.1fs (%s)' % (time.time() - t0, ' '.join(
+        '%s:%d steps:%ss' % (r['sid'], len(r['steps']), r.get('secs')) for r in results)))
     reqs, loadlists, curids = [], [], []
     for sc, res in zip(scs, results):
         rq, loads, cur = model_request(sc, res)
@@ -677,9 +679,12 @@ def _run(ctx):
                 if a != b:
                     layer = (stale_loads.get(si) or [(None, None)])[0][1]
                     shape = classify(sc['policy'], None)
-                    ctx.fail('oracle', 'a Script answers for an earlier version of an imported file',
+                    ctx.fail('oracle', 'a later Script answers differently from a fresh process with an empty cache '
+                                       'on the same files (a definition of an earlier state is reported, or a '
+                                       'new one is missed)',
                              {'shape': shape, 'observer': sc['observer'], 'policy': sc['policy'],
-                              'scenario': {k: sc[k] for k in ('observer', 'policy', 'steps')}, 'step': si,
+                              'scenario': {'observer': sc['observer'], 'policy': sc['policy'],
+                                           'steps': sc['steps'][:si + 1]}, 'step': si,
                               'query': label, 'stale_layer': layer},
                              expected=b, observed=a, how='./check C09 --replay <this file>')
     finder_stream(ctx)
@@ -724,13 +729,13 @@ def layout_scenarios(seed):
     def d(rel):
         return {'op': 'delete', 'rel': rel}
     base = [w(r) for r in MODFILES]
-    # A: a stub next to a sub-PACKAGE: added, overwritten, replaced by the __init__.pyi form, removed
-    a = [base + [w(SPK_PKG)], [w(SPK_SIB)], [w(SPK_SIB)], [d(SPK_SIB), w(SPK_INIT)], [d(SPK_INIT)]]
-    # B: module + stub, then the module is turned into a package (the stub stays next to it), the
-    #    python package goes away (stub-only module next to a namespace directory), comes back as a module
-    b = [base + [w(SPK_MOD)], [w(SPK_SIB)], [d(SPK_MOD), w(SPK_PKG)], [d(SPK_PKG)], [w(SPK_MOD)]]
-    # C: nothing -> stub-only package -> python package next to it -> stub moved next to the package
-    c = [base, [w(SPK_INIT)], [w(SPK_PKG)], [d(SPK_INIT), w(SPK_SIB)], [{'op': 'rmdir', 'rel': 'pkg/spk'}]]
+    # A: a stub next to a sub-PACKAGE: added, replaced by the __init__.pyi form, removed
+    a = [base + [w(SPK_PKG)], [w(SPK_SIB)], [d(SPK_SIB), w(SPK_INIT)], [d(SPK_INIT)]]
+    # B: module + stub, then the module is turned into a package (the stub stays next to it), then the
+    #    python package goes away (stub-only module next to a namespace directory)
+    b = [base + [w(SPK_MOD)], [w(SPK_SIB)], [d(SPK_MOD), w(SPK_PKG)], [d(SPK_PKG)]]
+    # C: nothing -> stub-only package -> python package with the stub moved next to it -> directory gone
+    c = [base, [w(SPK_INIT)], [w(SPK_PKG), d(SPK_INIT), w(SPK_SIB)], [{'op': 'rmdir', 'rel': 'pkg/spk'}]]
     out = [
         {'sid': 'l-pkgstub-%d' % seed, 'observer': 'same', 'policy': 'fresh', 'steps': a},
         {'sid': 'l-modpkg-%d' % seed, 'observer': 'same', 'policy': 'fresh', 'steps': b},
